@@ -277,15 +277,18 @@ Definition lookup_can_fail (ord : N -> N) (w : N) (sel : N -> bool) (reserved : 
    for the fee without change and once more for the fee with change: [rounds] passes over the
    inputs, one read transaction per look-up; nothing is selected, the result is a function of the
    request and of the (immutable) previous outputs. *)
+Fixpoint lookup_pass (nd : node) (rd : nat -> wstate) (k : nat) (l : list op) : nat * bool :=
+  match l with
+  | [] => (k, true)
+  | o :: t => if lookup_ok nd (rd k) o then lookup_pass nd rd (S k) t else (S k, false)
+  end.
 Fixpoint manual_lookups (nd : node) (rd : nat -> wstate) (rounds : nat) (k : nat) (ins : list op) : nat * bool :=
   match rounds with
   | O => (k, true)
-  | S r =>
-    (fix pass (k : nat) (l : list op) : nat * bool :=
-       match l with
-       | [] => manual_lookups nd rd r k ins
-       | o :: t => if lookup_ok nd (rd k) o then pass (S k) t else (S k, false)
-       end) k ins
+  | S r => match lookup_pass nd rd k ins with
+           | (k1, true) => manual_lookups nd rd r k1 ins
+           | (k1, false) => (k1, false)
+           end
   end.
 
 (* what the explicit-input path guarantees at a boundary: every input is a recorded output of the
